@@ -18,10 +18,17 @@
 //	                      w<k>   one-way confirmable cc.WriteMessage (POST /w, token of exchange k, 30 s): on the datagram transport it
 //	                             returns when the peer's ACK (`ack:<k>`) has been read — by the socket reader, no loop needed
 //	                      a      the handler answers the request (2.05; the reply is cached under the request's message ID)
+//	                      j      the handler takes the request message over (Hijack) and passes it on to another part of the application
+//	                             (a worker), which gives it back to the pool when it is done with it: op `rel:<m>`
 //	arrivem:<m>:<prog>:<con|non>:+<d>   the same with a confirmable / non-confirmable request whose message ID is the ID of the
 //	                    last message the connection itself sent plus d (the peer's ID space happens to meet ours)
 //	mon:<m>:<prog>      (stream) one write with two frames: a message the connection's request monitor drops (the harness's monitor
 //	                    drops DELETE), and request m behind it — which is a message like any other
+//	rel:<m>             the new owner of request m (taken over by its handler, step `j`) is done with the message and gives it back to
+//	                    the pool (cc.ReleaseMessage).  It does so between two reads of the socket reader, on that goroutine: whatever
+//	                    the peer sends next is read after the release (a fixed order, no race with the pool's per-processor caches)
+//	flood:<m0>:<n>:<con|non>   a busy peer: n distinct requests m0 … m0+n-1 (confirmable / non-confirmable, consecutive message IDs),
+//	                    back to back, every handler answers (program `a`)
 //	dup:<m>             the peer sends the very datagram of request m once more (same message ID, same token: a retransmission)
 //	<op>&<op>&…         these ops are applied without running to quiescence in between; `yield` as a part lets the other goroutines
 //	                    run for a moment (no virtual time passes)
@@ -112,7 +119,8 @@ type world struct {
 	sent        func() []sentMsg
 	last        map[string]sentMsg
 	lastPing    sentMsg
-	feed        chan []byte
+	feed        chan feedItem
+	hij         map[int]*pool.Message // requests taken over by their handlers (step j), until released
 	padNext     int
 	lastOwn     int32 // message ID of the last message the connection sent under an ID of its own
 	ackedResp   map[int32]bool
@@ -124,6 +132,13 @@ type world struct {
 	fed         int
 	handed      int
 	nextMid     int32
+}
+
+// feedItem is what the socket-reader goroutine gets: a datagram / a piece of the stream of the peer, or something the application
+// does between two reads (rel)
+type feedItem struct {
+	d []byte
+	f func()
 }
 
 type sentMsg struct {
@@ -159,10 +174,18 @@ func errName(err error) string {
 }
 
 // runProg is the body of the application handler for one request.
-func (w *world) runProg(prog string) {
+func (w *world) runProg(prog string, r *pool.Message, m int) {
 	for _, st := range strings.Split(prog, "+") {
 		switch {
 		case st == "r" || st == "" || st == "a":
+		case st == "j":
+			if r != nil {
+				r.Hijack()
+				w.mu.Lock()
+				w.hij[m] = r
+				w.mu.Unlock()
+				r = nil // the handler has passed the message on
+			}
 		case st[0] == 'w':
 			k, _ := strconv.Atoi(st[1:])
 			ctx, cancel := context.WithTimeout(context.Background(), 30*time.Second)
@@ -247,7 +270,7 @@ func (w *world) watch(k int, prog string) {
 		id := 9000 + 100*k + (i - 1)
 		w.log(fmt.Sprintf("s%d", id))
 		if i == 2 {
-			w.runProg(prog)
+			w.runProg(prog, nil, 0)
 		}
 		w.log(fmt.Sprintf("e%d", id))
 	})
@@ -294,7 +317,7 @@ func (w *world) handler(r *pool.Message, answer func()) {
 	if strings.Contains("+"+prog+"+", "+a+") {
 		answer()
 	}
-	w.runProg(prog)
+	w.runProg(prog, r, int(m))
 	w.log(fmt.Sprintf("e%d", m))
 }
 
@@ -374,7 +397,7 @@ func (w *world) push(d []byte) {
 	w.mu.Lock()
 	w.fed++
 	w.mu.Unlock()
-	w.feed <- d
+	w.feed <- feedItem{d: d}
 }
 
 func (w *world) apply(f []string, obsExch map[int]bool) {
@@ -411,6 +434,36 @@ func (w *world) apply(f []string, obsExch map[int]bool) {
 			w.push(d)
 		} else {
 			w.push(append(append([]byte(nil), dropped...), d...))
+		}
+	case f[0] == "rel" && len(f) == 2:
+		m := atoi(f[1])
+		w.feed <- feedItem{f: func() {
+			w.mu.Lock()
+			r := w.hij[m]
+			delete(w.hij, m)
+			w.mu.Unlock()
+			if r != nil {
+				w.cc.ReleaseMessage(r)
+			}
+		}}
+	case f[0] == "flood" && len(f) == 4:
+		w.tick()
+		typ := message.NonConfirmable
+		if f[3] == "con" {
+			typ = message.Confirmable
+		}
+		m0, n := atoi(f[1]), atoi(f[2])
+		w.mu.Lock()
+		for i := 0; i < n; i++ {
+			w.progs[lp.Hex(reqTok(m0+i))] = "a"
+		}
+		w.mu.Unlock()
+		for i := 0; i < n; i++ {
+			mid := w.nextMid
+			w.nextMid++
+			d := w.build1(typ, codes.GET, reqTok(m0+i), mid, func(x *pool.Message) { _ = x.SetPath("/req") }, -1)
+			w.datagrams[m0+i] = d
+			w.push(d)
 		}
 	case f[0] == "dup" && len(f) == 2:
 		w.tick()
@@ -511,7 +564,7 @@ func (w *world) apply(f []string, obsExch map[int]bool) {
 		}
 	case f[0] == "call" && len(f) == 2:
 		w.tick()
-		go w.runProg(f[1])
+		go w.runProg(f[1], nil, 0)
 	case f[0] == "watch" && len(f) == 3:
 		w.tick()
 		k := atoi(f[1])
@@ -586,7 +639,11 @@ func (w *world) run(ops []string, inject func([]byte) error) string {
 	go func() {
 		defer close(done)
 		for d := range w.feed {
-			_ = inject(d) // fails only once the connection is closed
+			if d.f != nil {
+				d.f()
+				continue
+			}
+			_ = inject(d.d) // fails only once the connection is closed
 			w.mu.Lock()
 			w.handed++
 			w.mu.Unlock()
@@ -637,7 +694,7 @@ func (w *world) run(ops []string, inject func([]byte) error) string {
 }
 
 func newWorld(udp bool) *world {
-	return &world{udp: udp, progs: map[string]string{}, last: map[string]sentMsg{}, feed: make(chan []byte, 4096), nextMid: 40000, notes: map[int]int{}, lastOwn: 100, ackedResp: map[int32]bool{}, resp2: map[int]bool{}, datagrams: map[int][]byte{}}
+	return &world{udp: udp, progs: map[string]string{}, last: map[string]sentMsg{}, feed: make(chan feedItem, 4096), hij: map[int]*pool.Message{}, nextMid: 40000, notes: map[int]int{}, lastOwn: 100, ackedResp: map[int32]bool{}, resp2: map[int]bool{}, datagrams: map[int][]byte{}}
 }
 
 func runUDP(t *testing.T, nstart int, queue int, limit, eplimit int64, ops []string) (out string) {
